@@ -13,6 +13,7 @@ from concurrent.futures import ThreadPoolExecutor
 VERIF = os.path.dirname(os.path.dirname(os.path.abspath(__file__)))
 REPO = os.environ.get('VERIF_REPO', '/repo')
 BUILD = os.path.join(VERIF, 'build')
+OUT = os.environ.get('VERIF_OUT', VERIF)   # evidence/ and replays/ go here (mutation runs redirect it)
 sys.path.insert(0, os.path.join(VERIF, 'tools'))
 import join as joinmod
 import props
@@ -209,6 +210,34 @@ def replay(binpath, prop, path, known_ids, extra_args, timeout=120):
         return 'timeout', ''
 
 
+def run_custom(prop, tier, seed, flavs, replay_path):
+    import importlib
+    mod = importlib.import_module(props.PROPS[prop]['custom'])
+    spec = props.PROPS[prop]
+    if replay_path:
+        ok = mod.replay(replay_path, REPO, flavs)
+        if not ok:
+            print('VIOLATION property=%s replay=%s' % (prop, replay_path))
+        return 0 if ok else 1
+    os.makedirs(os.path.join(OUT, 'evidence'), exist_ok=True)
+    os.makedirs(BUILD, exist_ok=True)
+    cov, violations, undecided, wall = mod.run(tier, seed, REPO, BUILD, OUT, flavs, props.ZOO)
+    cov['tree_hash'] = tree_hash()
+    ev = dict(property_id=prop, tier=tier, seed=seed, level=spec.get('level', 'exploration'), coverage=cov, assumptions=spec.get('assumptions', []), wall_s=round(wall, 1), violations=len(violations))
+    json.dump(ev, open(os.path.join(OUT, 'evidence', prop + '.json'), 'w'), indent=1)
+    print('%s %s: %d cases, %d distinct non-trivial, %.1fs, violations=%d' % (prop, tier, cov['evaluations'], cov['distinct_nontrivial'], wall, len(violations)))
+    for v in violations[:10]:
+        print('  ' + v['message'])
+        print('VIOLATION property=%s replay=%s' % (prop, v['replay']))
+    if violations:
+        return 1
+    if undecided:
+        for p, o in undecided[:3]:
+            print('UNDECIDED (does not compile) %s\n%s' % (p, o))
+        return 2
+    return 0
+
+
 def main():
     args = sys.argv[1:]
     if not args:
@@ -242,6 +271,8 @@ def main():
     if prop not in props.PROPS:
         print('unknown property', prop); sys.exit(2)
     t0 = time.time()
+    if props.PROPS[prop].get('custom'):
+        return run_custom(prop, tier, seed, flavs, replay_path)
     known, fixed = load_known()
     known_here = [k for k in known if k['property'] == prop]
     known_ids = [k['id'] for k in known_here]
@@ -281,8 +312,8 @@ def main():
         for fu in futs:
             runs.append(fu.result())
 
-    os.makedirs(os.path.join(VERIF, 'replays'), exist_ok=True)
-    os.makedirs(os.path.join(VERIF, 'evidence'), exist_ok=True)
+    os.makedirs(os.path.join(OUT, 'replays'), exist_ok=True)
+    os.makedirs(os.path.join(OUT, 'evidence'), exist_ok=True)
     violations = []
     undecided = []
     agg = dict(evaluations=0, distinct_nontrivial=0, classes={}, known={}, samples=[], binaries=[])
@@ -314,7 +345,7 @@ def main():
         if case is None:
             undecided.append((name, r))
             continue
-        dst = os.path.join(VERIF, 'replays', name + '.case')
+        dst = os.path.join(OUT, 'replays', name + '.case')
         shutil.copyfile(case, dst)
         fails = 0
         last = ''
@@ -349,7 +380,7 @@ def main():
                             budget_exhausted=agg.get('budget_exhausted', []), not_reproducible=agg.get('not_reproducible', []),
                             tree_hash=tree_hash()),
               assumptions=spec.get('assumptions', []), wall_s=round(wall, 1), violations=len(violations))
-    json.dump(ev, open(os.path.join(VERIF, 'evidence', prop + '.json'), 'w'), indent=1)
+    json.dump(ev, open(os.path.join(OUT, 'evidence', prop + '.json'), 'w'), indent=1)
 
     for k in known_here:
         hits = agg['known'].get(k['id'], 0)
